@@ -103,7 +103,8 @@ def render(items, ren, stack, in_scope_with_fwd=None):
             stack[-1][nm] = v
         elif k == "chain":
             if lookup(stack, "k") is None or isinstance(lookup(stack, "k"), str):
-                continue   # a value that is itself the text of an unresolved reference is outside the templates (indirection is a feature)
+                it[0] = "skip"   # not emitted (decided once, also for a later loop iteration): a value that is itself the text
+                continue         # of an unresolved reference is outside the templates (indirection is a feature)
             v = ren.newvar()
             old_k = lookup(stack, "k")
             ren.doc.append(f'<var k="[[{v}]]" j="$k"/>')
@@ -117,6 +118,7 @@ def render(items, ren, stack, in_scope_with_fwd=None):
         elif k == "swap":
             ok, oj = lookup(stack, "k"), lookup(stack, "j")
             if ok is None or oj is None or isinstance(ok, str) or isinstance(oj, str):
+                it[0] = "skip"
                 continue
             ren.doc.append('<var k="$j" j="$k"/>')
             if ren.has_fwd:
@@ -164,6 +166,8 @@ def render(items, ren, stack, in_scope_with_fwd=None):
             ren.doc.append('<if test="1">')
             render(it[1], ren, stack)
             ren.doc.append("</if>")
+        elif k == "skip":
+            continue
         else:
             raise ValueError(k)
 
@@ -183,17 +187,15 @@ def replay_render(items, ren, stack, nv_start):
             k = it[0]
             if k in ("var_k", "var_j"):
                 stack[-1][k[-1]] = nextvar()
+            elif k == "skip":
+                continue
             elif k == "chain":
-                if lookup(stack, "k") is None or isinstance(lookup(stack, "k"), str):
-                    continue
                 v = nextvar()
                 old_k = lookup(stack, "k")
                 stack[-1]["k"] = v
                 stack[-1]["j"] = old_k if old_k is not None else "lit:$k"
             elif k == "swap":
                 ok, oj = lookup(stack, "k"), lookup(stack, "j")
-                if ok is None or oj is None or isinstance(ok, str) or isinstance(oj, str):
-                    continue
                 stack[-1]["k"] = oj if oj is not None else "lit:$j"
                 stack[-1]["j"] = ok if ok is not None else "lit:$k"
             elif k in ("probe", "fwd"):
@@ -220,13 +222,23 @@ def replay_render(items, ren, stack, nv_start):
 
 
 def build(td, wrong=False):
+    import copy
     ren = Ren()
     stack = [{}]
-    render(td["prog"], ren, stack)
+    render(copy.deepcopy(td["prog"]), ren, stack)
     doc = '<svg><specs><rect id="tpl" wh="1" data-p="$k" data-q="$j"/></specs>' + "".join(ren.doc) + '<rect id="later" xy="0" wh="2"/></svg>'
     expect = ren.expect
     feats = ren.features
-    # role signatures for known-finding matching
+    # role signatures for known-finding matching.  The unit that is re-evaluated because of a forward reference is the
+    # top-level item containing it; assignments inside that item (already executed by the failed attempt) or in any
+    # later item are what a re-evaluation can wrongly observe.
+    def has(items, kinds):
+        return any(it[0] in kinds or (len(it) > 1 and has(it[1], kinds)) for it in items)
+    first_fwd = next((i for i, it in enumerate(td["prog"]) if has([it], ("fwd",))), None)
+    if first_fwd is not None:
+        assigns = ("var_k", "var_j", "chain", "swap")
+        if any(has([it], assigns) for i, it in enumerate(td["prog"]) if i > first_fwd or (has([it], ("fwd",)))):
+            feats.add("assign-after-fwd")
     if "assign-after-fwd" in feats:
         role = "C15/deferred-element-sees-later-assignment"
     elif "fwd-inside-scope" in feats:
